@@ -76,17 +76,27 @@ func (m *c09Momentum) GetActivePillars() ([]*definition.PillarInfo, error) {
 // pillar reader (consensus statistics): a model; only the epoch ticker is concrete (24 h epochs from a fixed genesis)
 type c09Pillars struct {
 	api.PillarReader
+	stats   *api.EpochStats
+	details map[string]*types.PillarDelegationDetail
 }
 
 func (p *c09Pillars) EpochTicker() common.Ticker {
 	return common.NewTicker(time.Unix(1600000000, 0), 24*time.Hour)
 }
 
-// consensus statistics of an epoch: an empty pillar set (the reward formulas over non-empty statistics are C11's kernels)
+// consensus statistics of an epoch: an empty pillar set unless the obligation installs its own (C11 pillar rewards)
 func (p *c09Pillars) EpochStats(epoch uint64) (*api.EpochStats, error) {
+	if p.stats != nil {
+		st := *p.stats
+		st.Epoch = epoch
+		return &st, nil
+	}
 	return &api.EpochStats{Epoch: epoch, Pillars: map[string]*api.EpochPillarStats{}, TotalWeight: big.NewInt(0)}, nil
 }
 func (p *c09Pillars) GetPillarDelegationsByEpoch(epoch uint64) (map[string]*types.PillarDelegationDetail, error) {
+	if p.details != nil {
+		return p.details, nil
+	}
 	return map[string]*types.PillarDelegationDetail{}, nil
 }
 
@@ -96,6 +106,7 @@ type c09Env struct {
 	ctx      vm_context.AccountVmContext
 	mom      *c09Momentum
 	send     *nom.AccountBlock
+	pillars  *c09Pillars
 }
 
 func c09NewEnv(contract types.Address) *c09Env {
@@ -108,7 +119,8 @@ func c09NewEnv(contract types.Address) *c09Env {
 		verifAssume(e.mom.ts < uint64(1600000000+k*86400), "frontier within the first k epochs (bounds the per-epoch reward loops)")
 	}
 	e.mom.sporks = [3]bool{verifNondetBool("accelerator spork active"), verifNondetBool("htlc spork active"), verifNondetBool("bridge spork active")}
-	e.ctx = vm_context.NewAccountContext(e.mom, e.as, &c09Pillars{})
+	e.pillars = &c09Pillars{}
+	e.ctx = vm_context.NewAccountContext(e.mom, e.as, e.pillars)
 	return e
 }
 
